@@ -49,6 +49,15 @@ CLAIMED = {
             "elements) and compared row by row, sense by sense, by TLC with the normal forms read from the DSL objects.",
             "TLC 1.8; cvxpy expression evaluation used for probing; MOSEK-side encoding is covered by C11 on a stand-in.",
             "6.5"),
+    "C11": ("the real MosekWrapper executed against a recording stand-in mosek module + TLC folding of the recorded Task call "
+            "sequence with spec/MosekTask.tla (call pre-conditions, row denotation, objective, dual read-out) + cross-check "
+            "with the cvxpy back-end on the same TLC-generated programs (SolveTrace.tla)",
+            "Every Task call of the wrapper is recorded and replayed by TLC through a state-machine model of the MOSEK task; "
+            "each row must denote the sent item, each multiplier must be read from that item's row / matrix variable with "
+            "the documented sign, values and constraint lists must agree with the cvxpy path.",
+            "MOSEK is not installed: a stand-in module (harness/fake/mosek) implements the documented conventions and solves "
+            "the recorded SDP with cvxpy+CLARABEL; real MOSEK behaviour is an assumption.",
+            "6.11"),
     "C13": ("TLC model checking of spec/Pep.tla (epochs, caches, accumulation switches) + real solve/edit/evaluate sequences "
             "+ TLC trace validation across consecutive solves (SolveTrace.tla)",
             "Sequences of solves interleaved with edits and evaluations are enumerated by TLC, run on the real library, and "
